@@ -109,7 +109,8 @@ def gen_thr(rng, count):
         m = rng.randint(1, 7)
         ids = list(range(1, m + 1))
         rng.shuffle(ids)
-        total = rng.choice([100, 200, 1000, 60, 10 ** 21])
+        # huge totals with non-zero low digits: a threshold given as Decimal times such a total does not fit the 28-digit decimal context
+        total = rng.choice([100, 200, 1000, 60, 10 ** 21, 300 * (10 ** 30 + 7), 300 * (10 ** 27 + 1), 600 * (10 ** 40 + 3)])
         # put one candidate exactly on the (first relative / absolute) threshold
         flat = [s] if s[0] != 2 else [p for p in s[1] if p[0] != 2] or [[0, 'i:5', True]]
         target = rng.choice(flat)
@@ -118,7 +119,8 @@ def gen_thr(rng, count):
         rest = total
         for i, k in enumerate(ids):
             if i == 0 and on.denominator == 1 and 0 <= on <= total and rng.random() < 0.8:
-                v = int(on)
+                v = int(on) + (rng.choice([0, 0, 1, -1]) if total > 10 ** 9 else rng.choice([0, 0, 0, 1, -1]))
+                v = min(max(v, 0), total)
             elif i == m - 1 and target[0] == 1:
                 v = max(rest, 0)
             else:
